@@ -7,6 +7,7 @@ block itself (names, order, bonds; elements given explicitly as a PDB does).  El
   swap-order(i,j)   exchange two atoms in node order
   rename(i)         give one atom a fresh name
   delete(i)         remove one atom (a non-cut atom, so the residue stays connected)
+  delete-pair(i,j)  remove two ADJACENT atoms (a gap with known atoms on both sides) where the rest stays connected
   attach(i,E)       attach one extra atom of element E in {H, O, C} to a heavy atom
 EVERY presentation with 0, then 1 (then 2) deviations of EVERY block of the chosen force fields is
 repaired with the real RepairGraph.  For blocks of <= 7 atoms ALL name permutations are run as well.
@@ -67,6 +68,9 @@ def apply_deviations(names, elements, edges, devs):
             cur_names[dev[1]] = 'ZQ%d' % dev[1]
         elif kind == 'delete':
             deleted.add(dev[1])
+        elif kind == 'delete-pair':
+            deleted.add(dev[1])
+            deleted.add(dev[2])
         elif kind == 'attach':
             attached.append((dev[1], dev[2]))
         elif kind == 'permute-names':
@@ -173,6 +177,11 @@ def single_deviations(names, elements, edges, tier):
         if elements[i] != 'H':
             for element in ('H', 'O', 'C'):
                 devs.append(('attach', i, element))
+    # a gap of two ADJACENT missing atoms whose removal leaves the rest of the residue connected
+    for i, j in edges:
+        rest = graph.subgraph(set(range(n)) - {i, j})
+        if len(rest) >= 1 and nx.is_connected(rest):
+            devs.append(('delete-pair', i, j))
     return devs
 
 
@@ -202,8 +211,78 @@ def block_tasks(ffname, blockname, tier, depth):
     return out
 
 
+def check_pair(ffname, first, second, naming, acc, sample=False):
+    """Two residues in ONE molecule (they share whatever the repair keeps per molecule), bonded C-N when both have
+    these atoms.  naming: 'canonical' | 'junk' (every atom called X<k>) | 'none' (no atom names at all)."""
+    import vermouth
+    from vermouth.processors.repair_graph import RepairGraph
+    ff = load_ff(ffname)
+    case = {'layer': 'pairs', 'ff': ffname, 'first': first, 'second': second, 'naming': naming}
+    mol = vermouth.molecule.Molecule(force_field=ff)
+    key = 0
+    info = []
+    link = {}
+    for resid, blockname in enumerate((first, second), start=1):
+        names, elements, edges = block_info(ff.blocks[blockname])
+        base = key
+        for idx, (name, element) in enumerate(zip(names, elements)):
+            attrs = {'element': element, 'resname': blockname, 'resid': resid, 'chain': 'A'}
+            if naming == 'canonical':
+                attrs['atomname'] = name
+            elif naming == 'junk':
+                attrs['atomname'] = 'X%d' % idx
+            mol.add_node(key, **attrs)
+            if name in ('C', 'N'):
+                link[(resid, name)] = key
+            key += 1
+        mol.add_edges_from((base + a, base + b) for a, b in edges)
+        info.append((blockname, names, elements, edges, base))
+    if (1, 'C') in link and (2, 'N') in link:
+        mol.add_edge(link[(1, 'C')], link[(2, 'N')])
+    try:
+        with common.LogCapture():
+            out = RepairGraph().run_molecule(mol)
+    except Exception as err:   # pylint: disable=broad-except
+        acc.case(outcome='exc')
+        acc.violation('c04:pair-exception', 'RepairGraph raised %r' % (err,), case)
+        return
+    problems = []
+    for resid, (blockname, names, elements, edges, base) in enumerate(info, start=1):
+        nodes = [(k, d) for k, d in out.nodes(data=True) if d['resid'] == resid]
+        flagged = [d.get('atomname') for _, d in nodes if d.get('PTM_atom')]
+        got_names = sorted(str(d.get('atomname')) for _, d in nodes if not d.get('PTM_atom'))
+        if flagged or len(nodes) != len(names):
+            problems.append(('c04:pair-spurious-unrecognised', 'residue %d (%s, after %s): the input IS the block, yet %d atoms are marked '
+                             'unrecognised and %d atoms were added' % (resid, blockname, first if resid == 2 else '-', len(flagged), len(nodes) - len(names))))
+            break
+        if got_names != sorted(names):
+            problems.append(('c04:pair-names', 'residue %d (%s): names after repair %r, block has %r' % (resid, blockname, got_names, sorted(names))))
+            break
+        by_name = {d['atomname']: k for k, d in nodes}
+        index = {n: i for i, n in enumerate(names)}
+        badel = [d['atomname'] for k, d in nodes if d.get('element') != elements[index[d['atomname']]]]
+        if badel:
+            problems.append(('c04:pair-element-not-preserved', 'residue %d (%s): atoms %r got names of another element' % (resid, blockname, badel)))
+            break
+        want = {frozenset((names[a], names[b])) for a, b in edges}
+        have = {frozenset((out.nodes[a]['atomname'], out.nodes[b]['atomname'])) for a, b in out.edges
+                if out.nodes[a]['resid'] == resid and out.nodes[b]['resid'] == resid}
+        if want != have:
+            problems.append(('c04:pair-bonds-not-preserved', 'residue %d (%s): bonds by name differ from the block: %r' % (
+                resid, blockname, sorted(map(sorted, want ^ have))[:4])))
+            break
+    acc.case(nontrivial=naming != 'canonical', outcome=('pair', first, naming, len(out)), sample=case if sample else None)
+    for sig, desc in problems[:1]:
+        acc.violation(sig, desc, case)
+
+
 def work(task):
     common.bind_repo()
+    if task[0] == 'pairs':
+        acc = Acc()
+        for n, (ffname, first, second, naming) in enumerate(task[1]):
+            check_pair(ffname, first, second, naming, acc, sample=(n % 101 == 0))
+        return acc
     ffname, blockname, devs_list = task
     acc = Acc()
     for n, devs in enumerate(devs_list):
@@ -247,11 +326,23 @@ def run(ctx):
         acc += part
     acc.extra['blocks'] = len(plan)
     ctx.layer('presentations', acc)
+    # every ordered pair of heavy-atom-sized blocks in one molecule, three namings
+    amber = sorted(load_ff('amber').blocks)
+    pairs = [('amber', a, b, naming) for a in amber for b in amber for naming in ('junk', 'none')
+             if ctx.tier != 'quick' or (len(load_ff('amber').blocks[a]) <= 17 and len(load_ff('amber').blocks[b]) <= 17)]
+    pairs += [('amber', a, b, 'canonical') for a in amber[::3] for b in amber[::4]]
+    acc = Acc()
+    for part in common.pmap(work, [('pairs', chunk) for chunk in common.chunked(pairs, 24)]):
+        acc += part
+    ctx.layer('residue-pairs', acc)
 
 
 def replay(case):
     common.bind_repo()
     acc = Acc()
+    if case.get('layer') == 'pairs':
+        check_pair(case['ff'], case['first'], case['second'], case['naming'], acc)
+        return [(s, d) for s, d, _ in acc.violations]
     devs = tuple((d[0], tuple(d[1])) if d[0] == 'permute-names' else tuple(d) for d in case['deviations'])
     check(case['ff'], case['block'], devs, acc)
     return [(s, d) for s, d, _ in acc.violations]
